@@ -186,6 +186,9 @@ func behaviours() []behaviour {
 		{name: "stays silent", kinds: allKinds, do: func(p *peer.Peer, fs []peer.Frame) {}},
 		{name: "closes the connection", kinds: connKinds, lost: true, do: func(p *peer.Peer, fs []peer.Frame) { p.Drop() }},
 		{name: "resets the connection", kinds: []string{"tcp", "ws"}, lost: true, do: func(p *peer.Peer, fs []peer.Frame) { p.Reset() }},
+		{name: "ends the session with a websocket close frame 1000 (normal closure)", kinds: []string{"ws"}, lost: true, do: func(p *peer.Peer, fs []peer.Frame) { p.CloseFrame(1000) }},
+		{name: "ends the session with a websocket close frame 1001 (going away)", kinds: []string{"ws"}, lost: true, do: func(p *peer.Peer, fs []peer.Frame) { p.CloseFrame(1001) }},
+		{name: "ends the session with a websocket close frame 1011 (internal error)", kinds: []string{"ws"}, lost: true, do: func(p *peer.Peer, fs []peer.Frame) { p.CloseFrame(1011) }},
 		{name: "sends 5 bytes of a header and stays silent", kinds: streamKinds, corrupts: true, do: func(p *peer.Peer, fs []peer.Frame) {
 			p.Raw(wire.SocketHeader(20, fs[0].Index, false)[:5])
 		}},
